@@ -53,6 +53,7 @@ type c20World struct {
 	exists map[int]bool
 	valid  map[int]bool
 	spec   map[int]string
+	caseID string
 }
 
 func c20Scheme() *runtime.Scheme {
@@ -90,7 +91,10 @@ func newC20World(id string) (*c20World, error) {
 
 func (w *c20World) close() {
 	for name, pc := range w.mc.decoratorControllers {
-		pc.Stop()
+		pc := pc
+		if _, _, hung := guardReconcile(func() { pc.Stop() }, len(w.mc.decoratorControllers)-1); hung != "" {
+			sim.R().Violation("C20", w.caseID, "stop-blocked-forever:doneCh-never-closed", "(*decoratorController).Stop is parked waiting for doneCh while the controller goroutine that alone closes it is gone (two goroutine dumps 2 s apart):\n"+hung, nil)
+		}
 		delete(w.mc.decoratorControllers, name)
 	}
 	w.env.Close()
@@ -161,9 +165,17 @@ func c20StartsOK(specKind string) bool {
 }
 
 func (w *c20World) reconcile(i int) (err error, panicMsg string) {
-	stack, p := sim.Guard(func() {
+	others := len(w.mc.decoratorControllers)
+	if _, ok := w.mc.decoratorControllers[w.ccName(i)]; ok {
+		others--
+	}
+	stack, p, hung := guardReconcile(func() {
 		_, err = w.mc.Reconcile(context.TODO(), reconcile.Request{NamespacedName: types.NamespacedName{Name: w.ccName(i)}})
-	})
+	}, others)
+	if hung != "" {
+		sim.R().Violation("C20", w.caseID, "reconcile-blocked-forever:Stop-waits-for-doneCh", "Reconcile is parked in (*decoratorController).Stop waiting for doneCh while the controller goroutine that alone closes it is gone (two goroutine dumps 2 s apart):\n"+hung, nil)
+		return fmt.Errorf("reconcile never returned"), "reconcile never returned"
+	}
 	if p {
 		return fmt.Errorf("panic"), stack
 	}
@@ -262,6 +274,7 @@ func runC20(t *testing.T, id string, steps []c20Step) {
 		inconclusive(t, "C20", id, err)
 		return
 	}
+	w.caseID = id
 	defer w.close()
 	s := w.sim
 	var desc []string
